@@ -118,6 +118,8 @@ def make_spec(seed, rng, k=None, mode=None, N=None, v=None):
         knobs['stdout_stall'] = rng.choice([0.003, 0.05, 1.0])   # ... or block for a while
     if rng.random() < 0.25:
         knobs['cpus'] = rng.choice([1, 2])  # fewer CPUs than -j must not serialise the layers
+    if seed % 6 == 1:
+        knobs['script_link'] = True     # the runner script was started through a symbolic link
     return {'property': ID, 'seed': seed, 'world': world, 'plan': _ws.order_plan(plan),
             'opt': opt, 'sched': sched, 'knobs': knobs, 'mode': mode}
 
